@@ -63,18 +63,23 @@ fn sc(a: &[&str]) -> String {
     // sc <u|i> <scalar type> <op> <side: r|l|a|rr> <big> <scalar>
     let (big, ty, op, side, x, s) = (a[1], a[2], a[3], a[4], a[5], a[6]);
     match (big, ty) {
+        ("u", "u8") => scalar_ops!(BigUint, pu, fu, x, u8, pu64(s) as u8, op, side),
+        ("u", "u16") => scalar_ops!(BigUint, pu, fu, x, u16, pu64(s) as u16, op, side),
         ("u", "u32") => scalar_ops!(BigUint, pu, fu, x, u32, pu64(s) as u32, op, side),
         ("u", "u64") => scalar_ops!(BigUint, pu, fu, x, u64, pu64(s), op, side),
         ("u", "u128") => scalar_ops!(BigUint, pu, fu, x, u128, u128::from_str_radix(s, 16).unwrap(), op, side),
         ("u", "usize") => scalar_ops!(BigUint, pu, fu, x, usize, pu64(s) as usize, op, side),
-        ("u", "u8") => scalar_ops!(BigUint, pu, fu, x, u8, pu64(s) as u8, op, side),
+        ("i", "u8") => scalar_ops!(BigInt, pi, fi, x, u8, pu64(s) as u8, op, side),
+        ("i", "u16") => scalar_ops!(BigInt, pi, fi, x, u16, pu64(s) as u16, op, side),
         ("i", "u32") => scalar_ops!(BigInt, pi, fi, x, u32, pu64(s) as u32, op, side),
         ("i", "u64") => scalar_ops!(BigInt, pi, fi, x, u64, pu64(s), op, side),
         ("i", "u128") => scalar_ops!(BigInt, pi, fi, x, u128, u128::from_str_radix(s, 16).unwrap(), op, side),
+        ("i", "usize") => scalar_ops!(BigInt, pi, fi, x, usize, pu64(s) as usize, op, side),
+        ("i", "i8") => scalar_ops!(BigInt, pi, fi, x, i8, pi128(s) as i8, op, side),
+        ("i", "i16") => scalar_ops!(BigInt, pi, fi, x, i16, pi128(s) as i16, op, side),
         ("i", "i32") => scalar_ops!(BigInt, pi, fi, x, i32, pi128(s) as i32, op, side),
         ("i", "i64") => scalar_ops!(BigInt, pi, fi, x, i64, pi128(s) as i64, op, side),
         ("i", "i128") => scalar_ops!(BigInt, pi, fi, x, i128, pi128(s), op, side),
-        ("i", "i8") => scalar_ops!(BigInt, pi, fi, x, i8, pi128(s) as i8, op, side),
         ("i", "isize") => scalar_ops!(BigInt, pi, fi, x, isize, pi128(s) as isize, op, side),
         _ => "UNKNOWN-SC-TYPE".to_string(),
     }
@@ -263,6 +268,19 @@ mod srd { pub fn run(_a: &[&str]) -> String { "UNSUPPORTED".into() } }
 fn hash_of<T: std::hash::Hash>(x: &T) -> u64 { use std::hash::Hasher; let mut h = std::collections::hash_map::DefaultHasher::new(); x.hash(&mut h); h.finish() }
 fn sg(s: &str) -> Sign { match s { "-" => Sign::Minus, "0" => Sign::NoSign, _ => Sign::Plus } }
 
+/// shf <u|i> <shift type> <l|r> <v|r|a> <x> <k>: every shift form (by value, by reference, assign) for every shift-amount type
+fn shf(a: &[&str]) -> String {
+    macro_rules! forms { ($x:expr, $k:expr, $f:ident) => { match (a[3], a[4]) {
+        ("l", "v") => $f(&($x << $k)), ("l", "r") => $f(&(&$x << $k)), ("l", _) => { let mut y = $x; y <<= $k; $f(&y) }
+        (_, "v") => $f(&($x >> $k)), (_, "r") => $f(&(&$x >> $k)), (_, _) => { let mut y = $x; y >>= $k; $f(&y) } } } }
+    macro_rules! tys { ($x:expr, $f:ident) => { match a[2] {
+        "u8" => forms!($x, pi128(a[6]) as u8, $f), "u16" => forms!($x, pi128(a[6]) as u16, $f), "u32" => forms!($x, pi128(a[6]) as u32, $f),
+        "u64" => forms!($x, pi128(a[6]) as u64, $f), "u128" => forms!($x, pi128(a[6]) as u128, $f), "usize" => forms!($x, pi128(a[6]) as usize, $f),
+        "i8" => forms!($x, pi128(a[6]) as i8, $f), "i16" => forms!($x, pi128(a[6]) as i16, $f), "i32" => forms!($x, pi128(a[6]) as i32, $f),
+        "i64" => forms!($x, pi128(a[6]) as i64, $f), "i128" => forms!($x, pi128(a[6]), $f), _ => forms!($x, pi128(a[6]) as isize, $f) } } }
+    if a[1] == "u" { tys!(pu(a[5]), fu) } else { tys!(pi(a[5]), fi) }
+}
+
 /// powf <u|i> <exponent type> <vv|vr|rv|rr> <base> <exponent>: every Pow form (base by value / reference, exponent by value / reference)
 fn powf(a: &[&str]) -> String {
     macro_rules! forms { ($b:expr, $e:expr, $f:ident) => { match a[3] {
@@ -279,6 +297,7 @@ fn run(a: &[&str]) -> String {
     if op == "sc" { return sc(a); }
     if op == "cv" { return cv(a); }
     if op == "powf" { return powf(a); }
+    if op == "shf" { return shf(a); }
     if op == "shlf" {
         // shlf <u|+|-> <64|32> <k hex>: (1 << k).to_f64() / to_f32() for shifts too large to pass as text
         let k = pu64(a[3]) as usize;
@@ -558,6 +577,19 @@ fn run(a: &[&str]) -> String {
         "ibit" => format!("{}", pi(a[1]).bit(pu64(a[2]))),
         "iset_bit" => { let mut x = pi(a[1]); x.set_bit(pu64(a[2]), a[3] == "1"); fi(&x) }
         "iabs" => fi(&pi(a[1]).abs()),
+        // ---- API functions that no other op reaches
+        "ufrom_slice" => { let d: Vec<u32> = a[1..].iter().map(|x| u32::from_str_radix(x, 16).unwrap()).collect(); fu(&BigUint::from_slice(&d)) }
+        "ifrom_slice" => { let d: Vec<u32> = a[2..].iter().map(|x| u32::from_str_radix(x, 16).unwrap()).collect(); fi(&BigInt::from_slice(sg(a[1]), &d)) }
+        "iassign_from_slice" => { let d: Vec<u32> = a[3..].iter().map(|x| u32::from_str_radix(x, 16).unwrap()).collect(); let mut x = pi(a[1]); x.assign_from_slice(sg(a[2]), &d); fi(&x) }
+        "inew" => { let d: Vec<u32> = a[2..].iter().map(|x| u32::from_str_radix(x, 16).unwrap()).collect(); fi(&BigInt::new(sg(a[1]), d)) }
+        "ugcd_lcm" => { let (g, l) = pu(a[1]).gcd_lcm(&pu(a[2])); format!("{} {}", fu(&g), fu(&l)) }
+        "igcd_lcm" => { let (g, l) = pi(a[1]).gcd_lcm(&pi(a[2])); format!("{} {}", fi(&g), fi(&l)) }
+        "uincdec" => { let mut x = pu(a[1]); x.inc(); let up = fu(&x); x.dec(); let mut y = pu(a[1]); y.dec(); format!("{} {} {}", up, fu(&x), fu(&y)) }
+        "iincdec" => { let mut x = pi(a[1]); x.inc(); let up = fi(&x); x.dec(); let mut y = pi(a[1]); y.dec(); format!("{} {} {}", up, fi(&x), fi(&y)) }
+        "utraitbytes" => { use num_traits::{FromBytes, ToBytes}; let x = pu(a[1]); let be = ToBytes::to_be_bytes(&x); let le = ToBytes::to_le_bytes(&x);
+            format!("{:?} {:?} {} {}", be, le, fu(&<BigUint as FromBytes>::from_be_bytes(&be)), fu(&<BigUint as FromBytes>::from_le_bytes(&le))) }
+        "itraitbytes" => { use num_traits::{FromBytes, ToBytes}; let x = pi(a[1]); let be = ToBytes::to_be_bytes(&x); let le = ToBytes::to_le_bytes(&x);
+            format!("{:?} {:?} {} {}", be, le, fi(&<BigInt as FromBytes>::from_be_bytes(&be)), fi(&<BigInt as FromBytes>::from_le_bytes(&le))) }
         // ---- C19: sign / identity helpers
         "signmul" => format!("{:?}", sg(a[1]) * sg(a[2])),
         "signneg" => format!("{:?}", -sg(a[1])),
